@@ -317,6 +317,9 @@ func fsmValidate(c *Ctx, rule string) {
 			val, isMethod = under, true
 		}
 	}
+	if val != nil && val.Signature.Recv() != nil {
+		isMethod = true
+	}
 	name := funcName(fs) + ":validator"
 	if val == nil {
 		c.Fail(rule, name, fs.Pos(), "no batch validator (func(meta) (bool, error)) is built for the transfer")
@@ -332,6 +335,12 @@ func fsmValidate(c *Ctx, rule string) {
 			return "New", true
 		}
 		if isMethod && t.Op == "field" && t.Args[0].IsParam(val, 0) {
+			lastT = t.String()
+			return "last", true
+		}
+		// the receiver of a method bound at a single site is described by the struct bound there: its
+		// field is then what FetchSnapshot stored into it (the follower's version from the request)
+		if isMethod && (t.Op == "field" || t.Op == "cell" || t.Op == "phi") && t.Has(func(x *Term) bool { return x.Op == "param" && x.Fn == fs }) {
 			lastT = t.String()
 			return "last", true
 		}
@@ -399,7 +408,7 @@ func fsmValidate(c *Ctx, rule string) {
 	eachInstr(val, func(in ssa.Instruction) {
 		if st, ok := in.(*ssa.Store); ok {
 			_, isFV := st.Addr.(*ssa.FreeVar)
-			if fa, isFA := st.Addr.(*ssa.FieldAddr); isFA && isMethod && p.TermOf(fa.X).IsParam(val, 0) {
+			if fa, isFA := st.Addr.(*ssa.FieldAddr); isFA && isMethod && len(val.Params) > 0 && (fa.X == ssa.Value(val.Params[0]) || p.TermOf(fa.X).IsParam(val, 0)) {
 				isFV = true
 			}
 			if isFV {
@@ -419,11 +428,33 @@ func fsmValidate(c *Ctx, rule string) {
 	if len(dbFetch) == 1 {
 		cc := callCommon(dbFetch[0])
 		since, until, vf := p.TermOf(cc.Args[1]), p.TermOf(cc.Args[2]), p.TermOf(cc.Args[3])
-		okW := since.IsField("StartSeqNum", isParam(fs, 1)) && until.IsField("EndSeqNum", isParam(fs, 1)) && vf.Has(func(t *Term) bool { return t.IsField("LastAppliedVersion", isParam(fs, 1)) })
+		okW := since.IsField("StartSeqNum", isParam(fs, 1)) && until.IsField("EndSeqNum", isParam(fs, 1)) && termCarries(p, vf, func(t *Term) bool { return t.IsField("LastAppliedVersion", isParam(fs, 1)) })
 		c.Check(okW, rule, funcName(fs)+":wiring", dbFetch[0].Pos(), "db.FetchSnapshot(w, req.StartSeqNum, req.EndSeqNum, validate(req.LastAppliedVersion))", fmt.Sprintf("store transfer called with since=%s until=%s validator=%s", since, until, vf))
 	} else {
 		c.Fail(rule, funcName(fs)+":wiring", fs.Pos(), "FetchSnapshot does not stream from the store exactly once")
 	}
+}
+
+// termCarries: t contains a term satisfying pred, directly or inside a struct it points to (the
+// receiver bound into a method value, a struct handed over by pointer).
+func termCarries(p *Program, t *Term, pred func(*Term) bool) bool {
+	if t.Has(pred) {
+		return true
+	}
+	found := false
+	t.Has(func(x *Term) bool {
+		if x.Op == "alloc" && !found {
+			for _, vs := range p.AllocFields(x) {
+				for _, v := range vs {
+					if v.Has(pred) {
+						found = true
+					}
+				}
+			}
+		}
+		return false
+	})
+	return found
 }
 
 func isErrorTerm(t *Term) bool {
